@@ -251,7 +251,8 @@ def owners(div):
         txt = " ".join(obs.get("fails") or []) + " " + " ".join(obs.get("races_in") or []) + " " + (obs.get("tail") or "")
         return ({"C20"} | ({"C09"} if ("poll-" in txt or "reproc_poll" in txt) else set()) | ({"C16"} if (" drain " in txt or "reproc_drain" in txt) else set())
                 | ({"C13"} if ("start-rejected-valid" in txt or "start-accepted-invalid" in txt or "parse_options" in txt) else set())
-                | ({"C12"} if "mask-after-start" in txt else set()))
+                | ({"C12"} if "mask-after-start" in txt else set())
+                | ({"C02"} if any(w in txt for w in ("echo-differs", "read-end", "rw-", "reproc_read", "reproc_write", "reproc_drain", " drain ")) else set()))
     if kind == "optprod":
         return {"C13"}
     if kind == "rejected":
@@ -1287,7 +1288,7 @@ PROPS = {
     "C11": {"families": ["wiring", "env2", "conc", "real"], "title": "nothing else is inherited"},
     "C13": {"families": ["options", "optprod", "threads"], "title": "options rejected up front, accepted as documented"},
     "C04": {"families": ["faults", "env", "env2", "wiring", "restart"], "title": "start is all-or-nothing and reports the real cause"},
-    "C05": {"families": ["faults", "anyfault", "wiring", "life"], "title": "no leak, no foreign or double close"},
+    "C05": {"families": ["faults", "anyfault", "wiring", "env", "life"], "title": "no leak, no foreign or double close"},
     "C18": {"families": ["wincmd"], "title": "Windows command line and environment block",
             "level_text": "The real Windows string code (process.windows.c, utf.windows.c, compiled unchanged against a stub windows.h, under ASan+UBSan) is run on an exhaustive bounded enumeration of argument vectors and environments; every record of what the stubbed CreateProcessW received is validated by TLC against spec/WinCmdLine.tla (Split(cmdline) = argv by the documented parsing rules, exact buffer size, environment block layout).",
             "level_note": "Trusted: TLC, the transcription of the documented Windows parsing rules (Split, self-checked on documented examples), the stub windows.h (MultiByteToWideChar maps bytes 1:1: ASCII alphabet only). Windows run-time behaviour is out of reach (DESIGN 8).",
@@ -1298,7 +1299,7 @@ PROPS = {
             "level_text": "TLC enumerates the option records, wrapper methods and C return values of spec/Wrapper.tla (every field with several pairwise distinguishable values) and predicts what the C layer must receive and what the wrapper must return; each point is executed through the real reproc++ sources over a recording mock of the C API and compared.",
             "technique": "TLA+ mapping model (Wrapper.tla) enumerated by TLC; every point replayed through reproc++ over a mock C API (conformance)"},
     "C14": {"families": ["life", "free"], "title": "life cycle; misuse errors, never UB"},
-    "C02": {"families": ["stream", "free"], "title": "stream fidelity"},
+    "C02": {"families": ["stream", "threads", "free"], "title": "stream fidelity"},
     # (thorough: the destroy scripts also run through the C++ destructor in C16's cxx family)
     "C15": {"families": ["destroy", "restart", "free"], "title": "destroy applies the stop policy"},
     "C16": {"families": ["drain", "run", "nest", "cxx", "free"], "title": "drain and run"},
